@@ -1,14 +1,35 @@
 /-
 C04 — the integrator assembles per-atom integrals, gradients and Hessians as documented.
 Model: Ecpint/Model/Api.lean; index data: Gen/IndexMaps.lean (regenerated from the source every run).
+
+What is proved here, for every number of atoms N and every placement of the three centres
+(shell A, shell B, ECP C) on atoms — no bound:
+  * `H_START` packs the Hessian blocks exactly as documented (AA AB AC … BB BC … with 6 components
+    on the diagonal, 9 off it): closed form, bounds, injectivity;
+  * the first-derivative scatter puts into matrix 3n+q exactly Σ_{centres X on atom n} ∂_{X,q};
+  * the second-derivative scatter (all five branches, `ixes/back_ixes/jxes`, the transposed reads for
+    Aix > Bix …) puts into the matrix at the documented position of (a,b,p,q) exactly
+    Σ_{X on a, Y on b} ∂²_{X p, Y q}.
 -/
 import Ecpint.Model.Api
+import Ecpint.Lemmas.Api
+import Mathlib.Tactic.Ring
+import Mathlib.Tactic.IntervalCases
+import Mathlib.Tactic.LinearCombination
+import Mathlib.Tactic.Abel
+import Mathlib.Tactic.Linarith
+import Mathlib.Algebra.BigOperators.Group.Finset.Basic
 
 namespace Ecpint.C04
 open Ecpint.Api
 
+/-! ### index tables -/
+
 /-- the six symmetric components xx xy xz yy yz zz -/
 def symPair : List (Nat × Nat) := [(0,0), (0,1), (0,2), (1,1), (1,2), (2,2)]
+
+/-- position of the component (p,q), p ≤ q, among xx xy xz yy yz zz -/
+def symIdx (p q : Nat) : Nat := if p = 0 then q else if p = 1 then q + 2 else 5
 
 /-- `jxes` transposes a 3×3 component index -/
 theorem jxes_spec : ∀ p < 3, ∀ q < 3, Gen.jxes.getD (3 * p + q) 0 = 3 * q + p := by decide
@@ -18,6 +39,596 @@ theorem ixes_spec : ∀ n < 6, Gen.ixes.getD n 0 = 3 * (symPair.getD n (0,0)).1 
   decide
 theorem back_ixes_spec :
     ∀ n < 6, Gen.back_ixes.getD n 0 = 3 * (symPair.getD n (0,0)).2 + (symPair.getD n (0,0)).1 := by
+  decide
+
+theorem symIdx_symPair : ∀ n < 6, symIdx (symPair.getD n (0,0)).1 (symPair.getD n (0,0)).2 = n := by decide
+
+/-! ### the documented packing -/
+
+/-- documented position of the first component of block (a, b), a ≤ b, for N atoms:
+blocks in the order AA AB AC … BB BC …, 6 matrices for a diagonal block, 9 for an off-diagonal one -/
+def blockStart (a b N : Nat) : Nat :=
+  ((List.range a).map fun x => 6 + 9 * (N - 1 - x)).sum + (if a = b then 0 else 6 + 9 * (b - a - 1))
+
+/-- documented position of component (p,q) of block (a,b) -/
+def hpos (a b p q N : Nat) : Nat :=
+  blockStart a b N + (if a = b then symIdx p q else 3 * p + q)
+
+/-! ### arithmetic of the documented packing -/
+
+theorem blockStart_succ_self (a N : Nat) :
+    blockStart (a + 1) (a + 1) N = blockStart a a N + (6 + 9 * (N - 1 - a)) := by
+  simp [blockStart, List.range_succ, List.sum_append]
+
+theorem blockStart_of_lt (a b N : Nat) (h : a < b) :
+    blockStart a b N = blockStart a a N + (6 + 9 * (b - a - 1)) := by
+  simp [blockStart, Nat.ne_of_lt h]
+
+theorem blockStart_self_mono (a a' N : Nat) (h : a ≤ a') :
+    blockStart a a N ≤ blockStart a' a' N := by
+  induction h with
+  | refl => exact le_rfl
+  | step h ih => rw [blockStart_succ_self]; omega
+
+/-- closed form of the start of row a -/
+theorem two_mul_blockStart_self (a N : Nat) (h : a ≤ N) :
+    2 * (blockStart a a N : Int) = 18 * (N : Int) * a + 3 * a - 9 * (a : Int) * a := by
+  induction a with
+  | zero => simp [blockStart]
+  | succ a ih =>
+    obtain ⟨k, rfl⟩ : ∃ k, N = a + 1 + k := ⟨N - (a + 1), by omega⟩
+    rw [blockStart_succ_self]
+    have hk : a + 1 + k - 1 - a = k := by omega
+    rw [hk]
+    have ih' := ih (by omega)
+    push_cast at ih' ⊢
+    linear_combination ih'
+
+/-- the rows tile exactly `3N(3N+1)/2` positions -/
+theorem blockStart_total (N : Nat) : blockStart N N N = (3 * N * (3 * N + 1)) / 2 := by
+  have h := two_mul_blockStart_self N N le_rfl
+  have h2 : ((2 * blockStart N N N : Nat) : Int) = ((3 * N * (3 * N + 1) : Nat) : Int) := by
+    push_cast; linear_combination h
+  have h3 : 2 * blockStart N N N = 3 * N * (3 * N + 1) := by exact_mod_cast h2
+  rw [← h3]; omega
+
+theorem symIdx_lt (p q : Nat) (hq : q < 3) (_hpq : p ≤ q) : symIdx p q < 6 := by
+  unfold symIdx; split_ifs <;> omega
+
+theorem symPair_symIdx : ∀ p < 3, ∀ q < 3, p ≤ q → symPair.getD (symIdx p q) (0,0) = (p, q) := by
+  decide
+
+theorem symIdx_inj (p q p' q' : Nat) (hp : p < 3) (hq : q < 3) (hp' : p' < 3) (hq' : q' < 3)
+    (hpq : p ≤ q) (hpq' : p' ≤ q') (h : symIdx p q = symIdx p' q') : p = p' ∧ q = q' := by
+  have h1 := symPair_symIdx p hp q hq hpq
+  have h2 := symPair_symIdx p' hp' q' hq' hpq'
+  rw [h, h2] at h1
+  exact ⟨(congrArg Prod.fst h1).symm, (congrArg Prod.snd h1).symm⟩
+
+theorem hpos_diag (a p q N : Nat) : hpos a a p q N = blockStart a a N + symIdx p q := by
+  simp [hpos]
+
+theorem hpos_offdiag (a b p q N : Nat) (h : a < b) :
+    hpos a b p q N = blockStart a a N + (6 + 9 * (b - a - 1)) + (3 * p + q) := by
+  simp [hpos, Nat.ne_of_lt h, blockStart_of_lt a b N h]
+
+/-- size of the component offset inside a block -/
+theorem hpos_off_lt (a b p q : Nat) (_hp : p < 3) (hq : q < 3) (hpq : a = b → p ≤ q) :
+    (if a = b then symIdx p q else 3 * p + q) < (if a = b then 6 else 9) := by
+  split_ifs with h
+  · exact symIdx_lt p q hq (hpq h)
+  · omega
+
+/-- a block ends before the next row starts -/
+theorem blockStart_end (a b N : Nat) (hab : a ≤ b) (hb : b < N) :
+    blockStart a b N + (if a = b then 6 else 9) ≤ blockStart (a + 1) (a + 1) N := by
+  rw [blockStart_succ_self]
+  split_ifs with h
+  · subst h; omega
+  · rw [blockStart_of_lt a b N (by omega)]; omega
+
+theorem hpos_lt_next (a b p q N : Nat) (hab : a ≤ b) (hb : b < N) (hp : p < 3) (hq : q < 3)
+    (hpq : a = b → p ≤ q) : hpos a b p q N < blockStart (a + 1) (a + 1) N := by
+  have h1 := hpos_off_lt a b p q hp hq hpq
+  have h2 := blockStart_end a b N hab hb
+  unfold hpos
+  omega
+
+theorem le_hpos (a b p q N : Nat) (hab : a ≤ b) : blockStart a a N ≤ hpos a b p q N := by
+  unfold hpos
+  rcases Nat.eq_or_lt_of_le hab with h | h
+  · subst h; omega
+  · rw [blockStart_of_lt a b N h]; omega
+
+/-- `H_START(a,a,N)+3` is the documented start of the diagonal block of atom a -/
+theorem slotDiag_eq (a N : Nat) (h : a < N) : slotDiag a N = (blockStart a a N : Int) := by
+  have h1 := two_mul_hStart a a N
+  have h2 := two_mul_blockStart_self a N h.le
+  have h3 : 2 * (hStart a a N + 3) = 2 * (blockStart a a N : Int) := by
+    rw [h2]; linear_combination h1
+  unfold slotDiag
+  omega
+
+/-- `H_START(a,b,N)` is the documented start of the off-diagonal block (a,b), a < b -/
+theorem slotPair_eq (a b N : Nat) (hab : a < b) (hb : b < N) :
+    slotPair a b N = (blockStart a b N : Int) ∧ slotPair b a N = (blockStart a b N : Int) := by
+  have h1 := slotDiag_eq a N (by omega)
+  have h2 := hStart_shift a b N
+  have h3 := blockStart_of_lt a b N hab
+  have hne : a ≠ b := by omega
+  have hne' : b ≠ a := by omega
+  unfold slotDiag at h1
+  unfold slotPair
+  simp only [Nat.min_eq_left hab.le, Nat.max_eq_right hab.le, Nat.min_eq_right hab.le,
+    Nat.max_eq_left hab.le, hne, hne', if_false]
+  omega
+
+/-- the positions tile `[0, 3N(3N+1)/2)`: every valid key is in range … -/
+theorem hpos_lt (a b p q N : Nat) (hab : a ≤ b) (hb : b < N) (hp : p < 3) (hq : q < 3)
+    (hpq : a = b → p ≤ q) : hpos a b p q N < (3 * N * (3 * N + 1)) / 2 := by
+  have h1 := hpos_lt_next a b p q N hab hb hp hq hpq
+  have h2 := blockStart_self_mono (a + 1) N N (by omega)
+  rw [← blockStart_total]
+  omega
+
+/-- … and two valid keys with the same position are the same key -/
+theorem hpos_inj (a b p q a' b' p' q' N : Nat)
+    (hab : a ≤ b) (hb : b < N) (hp : p < 3) (hq : q < 3) (hpq : a = b → p ≤ q)
+    (hab' : a' ≤ b') (hb' : b' < N) (hp' : p' < 3) (hq' : q' < 3) (hpq' : a' = b' → p' ≤ q')
+    (h : hpos a b p q N = hpos a' b' p' q' N) : a = a' ∧ b = b' ∧ p = p' ∧ q = q' := by
+  have haa : a = a' := by
+    rcases Nat.lt_trichotomy a a' with hlt | heq | hgt
+    · exfalso
+      have h1 := hpos_lt_next a b p q N hab hb hp hq hpq
+      have h2 := blockStart_self_mono (a + 1) a' N hlt
+      have h3 := le_hpos a' b' p' q' N hab'
+      omega
+    · exact heq
+    · exfalso
+      have h1 := hpos_lt_next a' b' p' q' N hab' hb' hp' hq' hpq'
+      have h2 := blockStart_self_mono (a' + 1) a N hgt
+      have h3 := le_hpos a b p q N hab
+      omega
+  subst haa
+  rcases Nat.eq_or_lt_of_le hab with e1 | l1 <;> rcases Nat.eq_or_lt_of_le hab' with e2 | l2
+  · subst e1; subst e2
+    have := symIdx_inj p q p' q' hp hq hp' hq' (hpq rfl) (hpq' rfl)
+      (by rw [hpos_diag, hpos_diag] at h; omega)
+    exact ⟨rfl, rfl, this⟩
+  · exfalso
+    subst e1
+    have := symIdx_lt p q hq (hpq rfl)
+    rw [hpos_diag, hpos_offdiag a b' p' q' N l2] at h
+    omega
+  · exfalso
+    subst e2
+    have := symIdx_lt p' q' hq' (hpq' rfl)
+    rw [hpos_diag, hpos_offdiag a b p q N l1] at h
+    omega
+  · rw [hpos_offdiag a b p q N l1, hpos_offdiag a b' p' q' N l2] at h
+    omega
+
+/-! ### first derivatives -/
+
+section
+variable {β : Type} [AddCommGroup β]
+
+/-- what lands in a slot, starting from zero -/
+def land {ι} [DecidableEq ι] (slot : ι) (cs : List (ι × β)) : β := landIn slot 0 cs
+
+theorem land_eq_sum {ι} [DecidableEq ι] (slot : ι) (cs : List (ι × β)) :
+    land slot cs = (cs.map fun c => if c.1 = slot then c.2 else 0).sum := by
+  unfold land; rw [landIn_eq_sum, zero_add]
+
+@[simp] theorem land_nil {ι} [DecidableEq ι] (slot : ι) : land slot ([] : List (ι × β)) = 0 := by
+  simp [land_eq_sum]
+
+theorem land_cons {ι} [DecidableEq ι] (slot i : ι) (v : β) (cs : List (ι × β)) :
+    land slot ((i, v) :: cs) = (if i = slot then v else 0) + land slot cs := by
+  simp [land_eq_sum]
+
+theorem land_append {ι} [DecidableEq ι] (slot : ι) (cs ds : List (ι × β)) :
+    land slot (cs ++ ds) = land slot cs + land slot ds := by
+  simp [land_eq_sum]
+
+/-- **first-derivative scatter**: matrix 3n+q receives exactly the derivatives with respect to
+coordinate q of the centres that sit on atom n (`t i` = `tempValues[i]`: A-block 0..2, B-block 3..5,
+C-block 6..8). -/
+theorem firstContribs_spec (Aix Bix Cix n q : Nat) (hq : q < 3) (t : Nat → β) :
+    land (3 * n + q) (firstContribs Aix Bix Cix t)
+      = (if Aix = n then t q else 0) + (if Bix = n then t (q + 3) else 0)
+        + (if Cix = n then t (q + 6) else 0) := by
+  have e : ∀ X k : Nat, k < 3 → (3 * X + k = 3 * n + q ↔ X = n ∧ k = q) := by
+    intro X k hk; omega
+  simp only [firstContribs, List.range_succ, List.range_zero, List.nil_append,
+    List.flatMap_cons, List.flatMap_nil, List.append_nil, List.cons_append, land_cons, land_nil,
+    Nat.add_zero]
+  have e0 := fun X => e X 0 (by omega)
+  have e1 := fun X => e X 1 (by omega)
+  have e2 := fun X => e X 2 (by omega)
+  simp only [Nat.add_zero] at e0
+  simp only [e0, e1, e2]
+  interval_cases q <;> simp <;> abel
+
+/-! ### second derivatives -/
+
+theorem land_cons' {ι} [DecidableEq ι] (slot : ι) (c : ι × β) (cs : List (ι × β)) :
+    land slot (c :: cs) = (if c.1 = slot then c.2 else 0) + land slot cs := by
+  simp [land_eq_sum]
+
+theorem land_flatMap_cons {ι α} [DecidableEq ι] (slot : ι) (l : List α) (f : α → ι × β)
+    (g : α → List (ι × β)) :
+    land slot (l.flatMap fun n => f n :: g n) = land slot (l.map f) + land slot (l.flatMap g) := by
+  induction l with
+  | nil => simp
+  | cons x l ih =>
+    simp only [List.flatMap_cons, List.map_cons, List.cons_append, land_cons', land_append, ih]
+    abel
+
+theorem land_flatMap_nil {ι α} [DecidableEq ι] (slot : ι) (l : List α) :
+    land slot (l.flatMap fun _ => ([] : List (ι × β))) = 0 := by
+  induction l with
+  | nil => simp
+  | cons x l ih => simpa [List.flatMap_cons] using ih
+
+omit [AddCommGroup β] in
+theorem ite_pair {ι} (c : Prop) [Decidable c] (i : ι) (v w : β) :
+    (if c then (i, v) else (i, w)) = (i, if c then v else w) := by
+  split_ifs <;> rfl
+
+/-- `land` over a `range`-indexed list whose slots hit the target at most once -/
+theorem land_range_single {ι} [DecidableEq ι] (slot : ι) (m k : Nat) (C : Prop) [Decidable C]
+    (f : Nat → ι) (g : Nat → β) (h : ∀ n < m, (f n = slot ↔ C ∧ k = n)) (hk : C → k < m) :
+    land slot ((List.range m).map fun n => (f n, g n)) = if C then g k else 0 := by
+  rw [land_eq_sum, List.map_map]
+  have e : ((List.range m).map
+        ((fun c : ι × β => if c.1 = slot then c.2 else 0) ∘ fun n => (f n, g n)))
+      = (List.range m).map fun n => if k = n then (if C then g n else 0) else 0 := by
+    apply List.map_congr_left
+    intro n hn
+    have hh := h n (List.mem_range.mp hn)
+    simp only [Function.comp]
+    by_cases hc : C <;> by_cases hkn : k = n <;> simp [hc, hkn, hh]
+  rw [e, sum_range_single]
+  by_cases hc : C
+  · simp [hc, hk hc]
+  · simp [hc]
+
+theorem symPair_bounds : ∀ n < 6,
+    (symPair.getD n (0,0)).1 ≤ (symPair.getD n (0,0)).2 ∧ (symPair.getD n (0,0)).2 < 3 := by decide
+
+theorem ixes_symIdx : ∀ p < 3, ∀ q < 3, p ≤ q → Gen.ixes.getD (symIdx p q) 0 = 3 * p + q := by decide
+theorem back_ixes_symIdx :
+    ∀ p < 3, ∀ q < 3, p ≤ q → Gen.back_ixes.getD (symIdx p q) 0 = 3 * q + p := by decide
+
+section hits
+variable (N a b p q : Nat) (hab : a ≤ b) (hb : b < N) (hp : p < 3) (hq : q < 3)
+  (hpq : a = b → p ≤ q)
+include hab hb hp hq hpq
+
+/-- the n-th matrix of the diagonal block of atom x is the documented position of (a,b,p,q) iff … -/
+theorem diag_hit (x n : Nat) (hx : x < N) (hn : n < 6) :
+    slotDiag x N + (n : Int) = ((hpos a b p q N : Nat) : Int) ↔ (x = a ∧ x = b) ∧ symIdx p q = n := by
+  rw [slotDiag_eq x N hx]
+  obtain ⟨hb1, hb2⟩ := symPair_bounds n hn
+  have hsym := symIdx_symPair n hn
+  constructor
+  · intro h
+    have h' : hpos x x (symPair.getD n (0,0)).1 (symPair.getD n (0,0)).2 N = hpos a b p q N := by
+      rw [hpos_diag, hsym]; exact_mod_cast h
+    obtain ⟨h1, h2, h3, h4⟩ := hpos_inj _ _ _ _ _ _ _ _ N le_rfl hx (by omega) hb2 (fun _ => hb1)
+      hab hb hp hq hpq h'
+    refine ⟨⟨h1, h2⟩, ?_⟩
+    rw [← h3, ← h4]; exact hsym
+  · rintro ⟨⟨rfl, rfl⟩, rfl⟩
+    rw [hpos_diag]; push_cast; rfl
+
+/-- the n-th matrix of the off-diagonal block (lo,hi) is the documented position of (a,b,p,q) iff … -/
+theorem pair_hit (lo hi n : Nat) (hlo : lo < hi) (hhi : hi < N) (hn : n < 9) :
+    (blockStart lo hi N : Int) + (n : Int) = ((hpos a b p q N : Nat) : Int)
+      ↔ (lo = a ∧ hi = b) ∧ 3 * p + q = n := by
+  constructor
+  · intro h
+    have h' : hpos lo hi (n / 3) (n % 3) N = hpos a b p q N := by
+      have : ((hpos lo hi (n / 3) (n % 3) N : Nat) : Int) = ((hpos a b p q N : Nat) : Int) := by
+        rw [← h, hpos_offdiag lo hi _ _ N hlo, blockStart_of_lt lo hi N hlo]
+        push_cast; omega
+      exact_mod_cast this
+    obtain ⟨h1, h2, h3, h4⟩ := hpos_inj _ _ _ _ _ _ _ _ N hlo.le hhi (by omega)
+      (Nat.mod_lt _ (by decide)) (fun e => by omega) hab hb hp hq hpq h'
+    exact ⟨⟨h1, h2⟩, by omega⟩
+  · rintro ⟨⟨rfl, rfl⟩, rfl⟩
+    rw [hpos_offdiag _ _ _ _ N hlo, blockStart_of_lt _ _ N hlo]; push_cast; omega
+
+theorem land_diag (x : Nat) (hx : x < N) (g : Nat → β) :
+    land ((hpos a b p q N : Nat) : Int) ((List.range 6).map fun (n : Nat) => (slotDiag x N + (n : Int), g n))
+      = if x = a ∧ x = b then g (symIdx p q) else 0 :=
+  land_range_single _ 6 (symIdx p q) (x = a ∧ x = b) _ g
+    (fun n hn => diag_hit N a b p q hab hb hp hq hpq x n hx hn)
+    (fun hc => symIdx_lt p q hq (hpq (hc.1.symm.trans hc.2)))
+
+theorem land_pair_lt (x y : Nat) (hxy : x < y) (hy : y < N) (g : Nat → β) :
+    land ((hpos a b p q N : Nat) : Int)
+        ((List.range 9).map fun (n : Nat) => (slotPair x y N + (n : Int), g n))
+      = if x = a ∧ y = b then g (3 * p + q) else 0 := by
+  rw [(slotPair_eq x y N hxy hy).1]
+  exact land_range_single _ 9 (3 * p + q) (x = a ∧ y = b) _ g
+    (fun n hn => pair_hit N a b p q hab hb hp hq hpq x y n hxy hy hn) (fun _ => by omega)
+
+theorem land_pair_gt (x y : Nat) (hxy : y < x) (hx : x < N) (g : Nat → β) :
+    land ((hpos a b p q N : Nat) : Int)
+        ((List.range 9).map fun (n : Nat) => (slotPair x y N + (n : Int), g n))
+      = if y = a ∧ x = b then g (3 * p + q) else 0 := by
+  rw [(slotPair_eq y x N hxy hx).2]
+  exact land_range_single _ 9 (3 * p + q) (y = a ∧ x = b) _ g
+    (fun n hn => pair_hit N a b p q hab hb hp hq hpq y x n hxy hx hn) (fun _ => by omega)
+
+/-- an off-diagonal block written with the transposed read when x > y: both orientations at once -/
+theorem land_pair (x y c : Nat) (hx : x < N) (hy : y < N) (hxy : x ≠ y) (t : Nat → β) :
+    land ((hpos a b p q N : Nat) : Int)
+        ((List.range 9).map fun (n : Nat) =>
+          (slotPair x y N + (n : Int), if x > y then t (Gen.jxes.getD n 0 + c) else t (n + c)))
+      = (if x = a ∧ y = b then t (c + 3 * p + q) else 0)
+        + (if y = a ∧ x = b then t (c + 3 * q + p) else 0) := by
+  rcases Nat.lt_or_gt_of_ne hxy with h | h
+  · have hn : ¬ x > y := by omega
+    simp only [hn, if_false]
+    rw [land_pair_lt N a b p q hab hb hp hq hpq x y h hy (fun n => t (n + c))]
+    have h0 : ¬ (y = a ∧ x = b) := by omega
+    have e : 3 * p + q + c = c + 3 * p + q := by omega
+    rw [if_neg h0, add_zero, e]
+  · have hn : x > y := h
+    simp only [hn, if_true]
+    rw [land_pair_gt N a b p q hab hb hp hq hpq x y h hx (fun n => t (Gen.jxes.getD n 0 + c))]
+    have h0 : ¬ (x = a ∧ y = b) := by omega
+    have e : 3 * q + p + c = c + 3 * q + p := by omega
+    rw [if_neg h0, zero_add, jxes_spec p hp q hq, e]
+
+theorem land_diag_c (x c : Nat) (hx : x < N) (t : Nat → β) :
+    land ((hpos a b p q N : Nat) : Int)
+        ((List.range 6).map fun (n : Nat) => (slotDiag x N + (n : Int), t (n + c)))
+      = if x = a ∧ x = b then t (c + symIdx (min p q) (max p q)) else 0 := by
+  rw [land_diag N a b p q hab hb hp hq hpq x hx (fun n => t (n + c))]
+  split_ifs with h
+  · have hle : p ≤ q := hpq (h.1.symm.trans h.2)
+    rw [Nat.min_eq_left hle, Nat.max_eq_right hle, Nat.add_comm]
+  · rfl
+
+theorem land_diag_0 (x : Nat) (hx : x < N) (t : Nat → β) :
+    land ((hpos a b p q N : Nat) : Int)
+        ((List.range 6).map fun (n : Nat) => (slotDiag x N + (n : Int), t n))
+      = if x = a ∧ x = b then t (symIdx (min p q) (max p q)) else 0 := by
+  have := land_diag_c N a b p q hab hb hp hq hpq x 0 hx t
+  simpa using this
+
+theorem land_diag_ix (x c : Nat) (hx : x < N) (t : Nat → β) :
+    land ((hpos a b p q N : Nat) : Int)
+        ((List.range 6).map fun (n : Nat) => (slotDiag x N + (n : Int), t (Gen.ixes.getD n 0 + c)))
+      = if x = a ∧ x = b then t (c + 3 * p + q) else 0 := by
+  rw [land_diag N a b p q hab hb hp hq hpq x hx (fun n => t (Gen.ixes.getD n 0 + c))]
+  split_ifs with h
+  · have hle : p ≤ q := hpq (h.1.symm.trans h.2)
+    have e : 3 * p + q + c = c + 3 * p + q := by omega
+    rw [ixes_symIdx p hp q hq hle, e]
+  · rfl
+
+theorem land_diag_bk (x c : Nat) (hx : x < N) (t : Nat → β) :
+    land ((hpos a b p q N : Nat) : Int)
+        ((List.range 6).map fun (n : Nat) =>
+          (slotDiag x N + (n : Int), t (Gen.back_ixes.getD n 0 + c)))
+      = if x = a ∧ x = b then t (c + 3 * q + p) else 0 := by
+  rw [land_diag N a b p q hab hb hp hq hpq x hx (fun n => t (Gen.back_ixes.getD n 0 + c))]
+  split_ifs with h
+  · have hle : p ≤ q := hpq (h.1.symm.trans h.2)
+    have e : 3 * q + p + c = c + 3 * q + p := by omega
+    rw [back_ixes_symIdx p hp q hq hle, e]
+  · rfl
+
+end hits
+
+
+/-- centres of a triple -/
+inductive Ctr | A | B | C
+deriving DecidableEq, Repr
+
+/-- the second-derivative tensor ∂²/∂X_p ∂Y_q read off the 45 low-level matrices
+(AA 0.., AB 6.., AC 15.., BB 24.., BC 30.., CC 39..; mixed blocks 3p+q, equal-centre blocks symmetric);
+the blocks below the diagonal are the transposes, T_YX^{pq} = T_XY^{qp} -/
+def T (t : Nat → β) : Ctr → Ctr → Nat → Nat → β
+  | .A, .A, p, q => t (symIdx (min p q) (max p q))
+  | .A, .B, p, q => t (6 + 3 * p + q)
+  | .A, .C, p, q => t (15 + 3 * p + q)
+  | .B, .B, p, q => t (24 + symIdx (min p q) (max p q))
+  | .B, .C, p, q => t (30 + 3 * p + q)
+  | .C, .C, p, q => t (39 + symIdx (min p q) (max p q))
+  | .B, .A, p, q => t (6 + 3 * q + p)
+  | .C, .A, p, q => t (15 + 3 * q + p)
+  | .C, .B, p, q => t (30 + 3 * q + p)
+
+def atomOf (Aix Bix Cix : Nat) : Ctr → Nat
+  | .A => Aix | .B => Bix | .C => Cix
+
+/-- Σ over ordered pairs of centres (X on atom a, Y on atom b) of ∂²/∂X_p ∂Y_q -/
+def pairSum (Aix Bix Cix a b p q : Nat) (t : Nat → β) : β :=
+  ([Ctr.A, .B, .C].map fun X => ([Ctr.A, .B, .C].map fun Y =>
+      if atomOf Aix Bix Cix X = a ∧ atomOf Aix Bix Cix Y = b then T t X Y p q else 0).sum).sum
+
+/-- `pairSum` written out -/
+theorem pairSum_eq (Aix Bix Cix a b p q : Nat) (t : Nat → β) :
+    pairSum Aix Bix Cix a b p q t
+      = ((if Aix = a ∧ Aix = b then T t .A .A p q else 0)
+          + ((if Aix = a ∧ Bix = b then T t .A .B p q else 0)
+          + (if Aix = a ∧ Cix = b then T t .A .C p q else 0)))
+        + (((if Bix = a ∧ Aix = b then T t .B .A p q else 0)
+          + ((if Bix = a ∧ Bix = b then T t .B .B p q else 0)
+          + (if Bix = a ∧ Cix = b then T t .B .C p q else 0)))
+        + ((if Cix = a ∧ Aix = b then T t .C .A p q else 0)
+          + ((if Cix = a ∧ Bix = b then T t .C .B p q else 0)
+          + (if Cix = a ∧ Cix = b then T t .C .C p q else 0)))) := by
+  simp only [pairSum, List.map_cons, List.map_nil, List.sum_cons, List.sum_nil, add_zero]
+  rfl
+
+/-- the conventions of the low-level routine when a shell sits on the ECP centre (its AC, BC and CC
+blocks are returned as zero; everything is zero when all three coincide) -/
+def LowLevelConvention (Aix Bix Cix : Nat) (t : Nat → β) : Prop :=
+  ((Aix = Cix ∨ Bix = Cix) → ∀ i, (15 ≤ i ∧ i < 24) ∨ (30 ≤ i ∧ i < 45) → t i = 0) ∧
+  ((Aix = Bix ∧ Bix = Cix) → ∀ i, i < 45 → t i = 0)
+
+/-- every entry of `T` is one of the 45 low-level matrices -/
+theorem T_zero_of_all (t : Nat → β) (hz : ∀ i, i < 45 → t i = 0) (X Y : Ctr) (p q : Nat)
+    (hp : p < 3) (hq : q < 3) : T t X Y p q = 0 := by
+  have hs : symIdx (min p q) (max p q) < 6 := symIdx_lt _ _ (by omega) (by omega)
+  cases X <;> cases Y <;> simp only [T] <;> apply hz <;> omega
+
+/-- the entries of `T` that involve the ECP centre are AC, BC or CC matrices -/
+theorem T_zero_of_C (t : Nat → β)
+    (hz : ∀ i, (15 ≤ i ∧ i < 24) ∨ (30 ≤ i ∧ i < 45) → t i = 0) (X Y : Ctr) (p q : Nat)
+    (hp : p < 3) (hq : q < 3) (hXY : X = .C ∨ Y = .C) : T t X Y p q = 0 := by
+  have hs : symIdx (min p q) (max p q) < 6 := symIdx_lt _ _ (by omega) (by omega)
+  cases X <;> cases Y <;> simp at hXY <;> simp only [T] <;> apply hz <;> omega
+
+omit [AddCommGroup β] in
+theorem ite_list2 {α} (c : Prop) [Decidable c] (e1 e2 e1' e2' : α) :
+    (if c then [e1, e2] else [e1', e2']) = [if c then e1 else e1', if c then e2 else e2'] := by
+  split_ifs <;> rfl
+
+/-- **second-derivative scatter, all five branches**: the matrix at the documented position of
+(a, b, p, q) receives exactly Σ_{X on a, Y on b} ∂²/∂X_p ∂Y_q — for every number of atoms and every
+placement of the three centres on atoms. -/
+theorem secondContribs_spec (Aix Bix Cix N a b p q : Nat)
+    (hA : Aix < N) (hB : Bix < N) (hC : Cix < N)
+    (hab : a ≤ b) (hb : b < N) (hp : p < 3) (hq : q < 3) (hpq : a = b → p ≤ q)
+    (t : Nat → β) (hconv : LowLevelConvention Aix Bix Cix t) :
+    land ((hpos a b p q N : Nat) : Int) (secondContribs Aix Bix Cix N t)
+      = pairSum Aix Bix Cix a b p q t := by
+  obtain ⟨hc1, hc2⟩ := hconv
+  simp only [secondContribs]
+  by_cases h1 : Aix = Cix ∨ Bix = Cix
+  · rw [if_pos h1]
+    by_cases h2 : Bix = Aix
+    · rw [if_neg (not_not.mpr h2), land_nil, pairSum_eq]
+      have z := hc2 ⟨h2.symm, by omega⟩
+      simp only [T_zero_of_all t z _ _ p q hp hq, ite_self, add_zero]
+    · have z := hc1 h1
+      rw [if_pos h2, land_append]
+      simp only [ite_pair, land_flatMap_cons, land_flatMap_nil, add_zero]
+      rw [land_diag_0 N a b p q hab hb hp hq hpq Aix hA,
+        land_diag_c N a b p q hab hb hp hq hpq Bix 24 hB,
+        land_pair N a b p q hab hb hp hq hpq Aix Bix 6 hA hB (Ne.symm h2), pairSum_eq,
+        T_zero_of_C t z .A .C p q hp hq (Or.inr rfl), T_zero_of_C t z .B .C p q hp hq (Or.inr rfl),
+        T_zero_of_C t z .C .A p q hp hq (Or.inl rfl), T_zero_of_C t z .C .B p q hp hq (Or.inl rfl),
+        T_zero_of_C t z .C .C p q hp hq (Or.inl rfl)]
+      simp only [T, ite_self, add_zero]
+      abel
+  · rw [if_neg h1]
+    have hAC : Aix ≠ Cix := fun e => h1 (Or.inl e)
+    have hBC : Bix ≠ Cix := fun e => h1 (Or.inr e)
+    by_cases h3 : Aix = Bix
+    · subst h3
+      rw [if_pos rfl, land_append]
+      simp only [ite_list2, ite_pair, land_flatMap_cons, land_flatMap_nil, add_zero]
+      rw [land_diag_0 N a b p q hab hb hp hq hpq Aix hA,
+        land_diag_c N a b p q hab hb hp hq hpq Aix 24 hA,
+        land_diag_c N a b p q hab hb hp hq hpq Cix 39 hC,
+        land_diag_ix N a b p q hab hb hp hq hpq Aix 6 hA,
+        land_diag_bk N a b p q hab hb hp hq hpq Aix 6 hA,
+        land_pair N a b p q hab hb hp hq hpq Aix Cix 15 hA hC hAC,
+        land_pair N a b p q hab hb hp hq hpq Aix Cix 30 hA hC hAC, pairSum_eq]
+      simp only [T]
+      abel
+    · rw [if_neg h3, land_append]
+      simp only [ite_pair, land_flatMap_cons, land_flatMap_nil, add_zero]
+      rw [land_diag_0 N a b p q hab hb hp hq hpq Aix hA,
+        land_diag_c N a b p q hab hb hp hq hpq Bix 24 hB,
+        land_diag_c N a b p q hab hb hp hq hpq Cix 39 hC,
+        land_pair N a b p q hab hb hp hq hpq Aix Bix 6 hA hB h3,
+        land_pair N a b p q hab hb hp hq hpq Aix Cix 15 hA hC hAC,
+        land_pair N a b p q hab hb hp hq hpq Bix Cix 30 hB hC hBC]
+      rw [pairSum_eq]
+      simp only [T]
+      abel
+
+omit [AddCommGroup β] in
+theorem diag_range (N x n : Nat) (hx : x < N) (hn : n < 6) :
+    0 ≤ slotDiag x N + (n : Int)
+      ∧ slotDiag x N + (n : Int) < ((3 * N * (3 * N + 1) / 2 : Nat) : Int) := by
+  have h1 := blockStart_end x x N le_rfl hx
+  have h2 := blockStart_self_mono (x + 1) N N (by omega)
+  rw [if_pos rfl] at h1
+  rw [slotDiag_eq x N hx, ← blockStart_total]
+  omega
+
+omit [AddCommGroup β] in
+theorem pair_range (N x y n : Nat) (hx : x < N) (hy : y < N) (hxy : x ≠ y) (hn : n < 9) :
+    0 ≤ slotPair x y N + (n : Int)
+      ∧ slotPair x y N + (n : Int) < ((3 * N * (3 * N + 1) / 2 : Nat) : Int) := by
+  rw [← blockStart_total]
+  rcases Nat.lt_or_gt_of_ne hxy with h | h
+  · have h1 := blockStart_end x y N h.le hy
+    have h2 := blockStart_self_mono (x + 1) N N (by omega)
+    rw [if_neg (by omega)] at h1
+    rw [(slotPair_eq x y N h hy).1]
+    omega
+  · have h1 := blockStart_end y x N h.le hx
+    have h2 := blockStart_self_mono (y + 1) N N (by omega)
+    rw [if_neg (by omega)] at h1
+    rw [(slotPair_eq y x N h hx).2]
+    omega
+
+set_option linter.unusedSectionVars false in
+/-- nothing is ever added outside `[0, 3N(3N+1)/2)` -/
+theorem secondContribs_in_range (Aix Bix Cix N : Nat) (hA : Aix < N) (hB : Bix < N) (hC : Cix < N)
+    (t : Nat → β) :
+    ∀ c ∈ secondContribs Aix Bix Cix N t, 0 ≤ c.1 ∧ c.1 < ((3 * N * (3 * N + 1)) / 2 : Nat) := by
+  intro c hc
+  have hd := fun x n (hx : x < N) (hn : n < 6) => diag_range N x n hx hn
+  have hp := fun x y n (hx : x < N) (hy : y < N) (hxy : x ≠ y) (hn : n < 9) =>
+    pair_range N x y n hx hy hxy hn
+  simp only [secondContribs] at hc
+  by_cases h1 : Aix = Cix ∨ Bix = Cix
+  · rw [if_pos h1] at hc
+    by_cases h2 : Bix = Aix
+    · rw [if_neg (not_not.mpr h2)] at hc
+      simp at hc
+    · rw [if_pos h2] at hc
+      simp only [ite_pair, List.mem_append, List.mem_flatMap, List.mem_map, List.mem_range,
+        List.mem_cons, List.not_mem_nil, or_false] at hc
+      rcases hc with ⟨n, hn, rfl | rfl⟩ | ⟨n, hn, rfl⟩
+      · exact hd _ _ hA hn
+      · exact hd _ _ hB hn
+      · exact hp _ _ _ hA hB (Ne.symm h2) hn
+  · rw [if_neg h1] at hc
+    have hAC : Aix ≠ Cix := fun e => h1 (Or.inl e)
+    have hBC : Bix ≠ Cix := fun e => h1 (Or.inr e)
+    by_cases h3 : Aix = Bix
+    · rw [if_pos h3] at hc
+      simp only [ite_list2, ite_pair, List.mem_append, List.mem_flatMap,
+        List.mem_range, List.mem_cons, List.not_mem_nil, or_false] at hc
+      rcases hc with ⟨n, hn, rfl | rfl | rfl | rfl | rfl⟩ | ⟨n, hn, rfl | rfl⟩
+      · exact hd _ _ hA hn
+      · exact hd _ _ hA hn
+      · exact hd _ _ hC hn
+      · exact hd _ _ hA hn
+      · exact hd _ _ hA hn
+      · exact hp _ _ _ hA hC hAC hn
+      · exact hp _ _ _ hA hC hAC hn
+    · rw [if_neg h3] at hc
+      simp only [ite_pair, List.mem_append, List.mem_flatMap,
+        List.mem_range, List.mem_cons, List.not_mem_nil, or_false] at hc
+      rcases hc with ⟨n, hn, rfl | rfl | rfl⟩ | ⟨n, hn, rfl | rfl | rfl⟩
+      · exact hd _ _ hA hn
+      · exact hd _ _ hB hn
+      · exact hd _ _ hC hn
+      · exact hp _ _ _ hA hB h3 hn
+      · exact hp _ _ _ hA hC hAC hn
+      · exact hp _ _ _ hB hC hBC hn
+
+end
+
+/-! ### non-vacuity: a three-atom placement with the ECP on the first shell's atom, integers as blocks -/
+example :
+    land ((hpos 0 2 1 2 3 : Nat) : Int) (secondContribs 2 0 2 3 (fun i => if i < 15 ∨ (24 ≤ i ∧ i < 30) then (i : Int) + 100 else 0))
+      = pairSum 2 0 2 0 2 1 2 (fun i => if i < 15 ∨ (24 ≤ i ∧ i < 30) then (i : Int) + 100 else 0) := by
   decide
 
 end Ecpint.C04
